@@ -124,3 +124,695 @@ def gen_state(repo):
 
 
 GENERATORS = {"State": gen_state}
+
+
+# =====================================================================================================
+# Effect scan (static counterpart of "arguments are not modified" / "no state on objects that outlive
+# a call").  Conservative and purely syntactic; see CLAIM.note in harness/c17.py for what it can and
+# cannot see.  For every function / method / nested function of rig/ (without rig/scripts and
+# rig/wizard.py) it lists every statement through which an object reachable from
+#   * a parameter                                  (root = the parameter's name),
+#   * `self` (first parameter of a method), outside `__init__`   (root = "self" / "cls" ...),
+#   * a free name: a module-level name, a function / class / imported module (attribute stores only),
+#     or a variable of an enclosing function (closure cell)     (root = "global:<n>" / "closure:<n>"),
+# can be written in place.
+#
+# Taint: every local name carries {root: level}; level 0 = the object itself is (part of) the root's
+# object graph, level n = a fresh container with n fresh layers above objects of the root's graph (shallow
+# copy, view, literal, a local dict of fresh lists that hold them ...).  Only level 0 receivers are effects.
+# Statements are processed in source order; a name loses its taint only by an unconditional rebinding
+# directly in the function body (`constraints = constraints[:]`); loop bodies are processed twice.
+# =====================================================================================================
+VIEW_METHODS = {"items", "values", "keys", "iteritems", "itervalues", "iterkeys", "viewitems", "viewvalues",
+                "viewkeys", "copy", "union", "intersection", "difference", "symmetric_difference"}
+ELEMENT_METHODS = {"get", "pop", "popitem", "setdefault", "popleft", "__getitem__"}
+SHALLOW_FUNCS = {"list", "dict", "set", "tuple", "frozenset", "sorted", "OrderedDict", "deque", "defaultdict",
+                 "copy", "Counter", "iter", "reversed", "chain", "islice", "filter",
+                 "itervalues", "iterkeys", "viewvalues", "viewkeys", "cycle"}
+TUPLING = {"items", "iteritems", "viewitems", "enumerate", "zip", "izip"}     # yield fresh tuples of elements
+ELEMENT_FUNCS = {"next", "min", "max", "getattr"}
+FRESH_METHODS = {"format", "join", "split", "index", "count", "encode", "decode", "pack", "unpack", "unpack_from",
+                 "strip", "lower", "upper", "startswith", "endswith", "isdisjoint", "issubset", "issuperset",
+                 "tobytes", "tolist", "astype", "bit_length", "to_bytes", "_replace", "deepcopy", "time", "random",
+                 "randint", "choice", "sample", "uniform"} - {"choice", "sample"}
+# functions of the standard library / NumPy that write into one of their arguments: name -> positions
+EXTERNAL_ARG_MUTATORS = {"heappush": [0], "heappop": [0], "heapify": [0], "heapreplace": [0], "heappushpop": [0],
+                         "shuffle": [0], "insort": [0], "insort_left": [0], "insort_right": [0], "setattr": [0],
+                         "delattr": [0], "copyto": [0], "pack_into": [1], "recv_into": [0], "readinto": [0],
+                         "next": [0], "move_to_end": [], "put": [0], "fill": []}
+MUTATORS_FX = MUTATORS | {"move_to_end", "itemset", "resize"}
+import builtins as _builtins
+BUILTIN_NAMES = set(dir(_builtins))
+STORE_MUTATORS = {"append", "add", "extend", "insert", "update", "setdefault", "appendleft", "extendleft",
+                  "__setitem__", "heappush"}
+
+
+def _join(*ts):
+    out = {}
+    for t in ts:
+        for r, l in t.items():
+            out[r] = min(l, out.get(r, 9))
+    return out
+
+
+def _down(t):
+    """an element / attribute of the value"""
+    return {r: max(l - 1, 0) for r, l in t.items()}
+
+
+def _up(t, n=1):
+    """a fresh container holding the value (n layers)"""
+    return {r: l + n for r, l in t.items()}
+
+
+def _shallow(t):
+    """a shallow copy / view / slice of the value: a fresh outer layer, the same elements"""
+    return {r: max(l, 1) for r, l in t.items()}
+
+
+class _Fn(object):
+    def __init__(self, mod, qual, node, cls, parent):
+        self.mod, self.qual, self.node, self.cls, self.parent = mod, qual, node, cls, parent
+        a = node.args
+        self.params = [x.arg for x in a.posonlyargs + a.args]
+        self.kwonly = [x.arg for x in a.kwonlyargs]
+        self.vararg = a.vararg.arg if a.vararg else None
+        self.kwarg = a.kwarg.arg if a.kwarg else None
+        decos = set()
+        for d in node.decorator_list:
+            d = d.func if isinstance(d, ast.Call) else d
+            decos.add(d.id if isinstance(d, ast.Name) else d.attr if isinstance(d, ast.Attribute) else "")
+        self.is_method = cls is not None and parent is None and "staticmethod" not in decos and bool(self.params)
+        self.selfname = self.params[0] if self.is_method else None
+        self.short = node.name
+        self.mutates = set()        # parameter names (incl. the self name) through which it can write
+        self.locals = self._locals()
+        self.effects = {}           # (root, kind, text) -> set of node ids
+
+    def all_params(self):
+        return self.params + self.kwonly + [p for p in (self.vararg, self.kwarg) if p]
+
+    def _locals(self):
+        names = set(self.all_params())
+        declared = set()
+        stack = list(self.node.body)
+        while stack:
+            n = stack.pop()
+            if isinstance(n, (ast.FunctionDef, ast.AsyncFunctionDef, ast.ClassDef)):
+                names.add(n.name)
+                continue
+            if isinstance(n, ast.Lambda):
+                continue
+            if isinstance(n, (ast.Global, ast.Nonlocal)):
+                declared |= set(n.names)
+            if isinstance(n, ast.Name) and isinstance(n.ctx, (ast.Store, ast.Del)):
+                names.add(n.id)
+            if isinstance(n, (ast.Import, ast.ImportFrom)):
+                for al in n.names:
+                    names.add((al.asname or al.name).split(".")[0])
+            if isinstance(n, ast.ExceptHandler) and n.name:
+                names.add(n.name)
+            stack.extend(ast.iter_child_nodes(n))
+        self.declared = declared
+        return names - declared
+
+
+class EffectScan(object):
+    def __init__(self, repo):
+        self.fns = []
+        self.by_short = {}
+        self.classes = {}           # class name -> [_Fn of __init__/__new__]
+        self.module_imports = {}    # module -> names bound by `import x` / `import x as y` (module objects)
+        self.bases = {}             # class name -> names of its base classes (last component)
+        self.external_names, self.from_rig, self.modules = {}, {}, set()
+        root = os.path.join(repo, "rig")
+        for d, _, files in sorted(os.walk(root)):
+            rel = os.path.relpath(d, repo)
+            if rel.split(os.sep)[:2] == ["rig", "scripts"]:
+                continue
+            for fn in sorted(files):
+                if not fn.endswith(".py") or (rel == "rig" and fn == "wizard.py"):
+                    continue
+                path = os.path.join(d, fn)
+                mod = os.path.relpath(path, repo)[:-3].replace(os.sep, ".")
+                tree = ast.parse(open(path).read())
+                imps, ext = set(), set()
+                for n in ast.walk(tree):
+                    if isinstance(n, ast.Import):
+                        for al in n.names:
+                            imps.add((al.asname or al.name).split(".")[0])
+                    if isinstance(n, ast.ImportFrom):
+                        inside = n.level > 0 or (n.module or "").split(".")[0] == "rig"
+                        for al in n.names:
+                            if inside:
+                                self.from_rig.setdefault(mod, set()).add((al.name, al.asname or al.name))
+                            else:
+                                ext.add(al.asname or al.name)   # a class / function of another library
+                self.module_imports[mod] = imps
+                self.external_names[mod] = ext
+                self.modules.add(mod)
+                self._collect(mod, tree.body, "", None, None)
+        lasts = set(m.split(".")[-1] for m in self.modules) | set(m.split(".")[-2] for m in self.modules if "." in m)
+        for mod, pairs in self.from_rig.items():
+            for name, asname in pairs:
+                if name in lasts:           # `from . import boot`: a module object
+                    self.module_imports[mod].add(asname)
+        for f in self.fns:
+            self.by_short.setdefault(f.short, []).append(f)
+            if f.cls and f.parent is None and f.short in ("__init__", "__new__"):
+                self.classes.setdefault(f.cls, []).append(f)
+
+    def _collect(self, mod, body, prefix, cls, parent):
+        for n in body:
+            if isinstance(n, (ast.FunctionDef, ast.AsyncFunctionDef)):
+                f = _Fn(mod, prefix + n.name, n, cls, parent)
+                self.fns.append(f)
+                self._collect_nested(mod, n, prefix + n.name + ".", cls, f)
+            elif isinstance(n, ast.ClassDef):
+                self._class(n)
+                self._collect(mod, n.body, prefix + n.name + ".", n.name, parent)
+            elif isinstance(n, (ast.If, ast.Try, ast.With, ast.For, ast.While)):
+                for field in ("body", "orelse", "finalbody"):
+                    self._collect(mod, getattr(n, field, []) or [], prefix, cls, parent)
+                for h in getattr(n, "handlers", []) or []:
+                    self._collect(mod, h.body, prefix, cls, parent)
+
+    def _class(self, n):
+        bs = self.bases.setdefault(n.name, set())
+        for b in n.bases:
+            bs.add(b.id if isinstance(b, ast.Name) else b.attr if isinstance(b, ast.Attribute) else "?")
+
+    def _ancestors(self, cls):
+        seen, todo = set(), [cls]
+        while todo:
+            for b in self.bases.get(todo.pop(), ()):
+                if b not in seen:
+                    seen.add(b)
+                    todo.append(b)
+        return seen
+
+    def _collect_nested(self, mod, fnode, prefix, cls, parent):
+        stack = list(fnode.body)
+        while stack:
+            n = stack.pop(0)
+            if isinstance(n, (ast.FunctionDef, ast.AsyncFunctionDef)):
+                f = _Fn(mod, prefix + n.name, n, cls, parent)
+                self.fns.append(f)
+                self._collect_nested(mod, n, prefix + n.name + ".", cls, f)
+            elif isinstance(n, ast.ClassDef):
+                self._class(n)
+                self._collect(mod, n.body, prefix + n.name + ".", n.name, parent)
+            else:
+                stack.extend(c for c in ast.iter_child_nodes(n) if isinstance(c, (ast.stmt, ast.ExceptHandler)))
+
+    # ---------------------------------------------------------------------------------------------
+    def run(self):
+        for _ in range(12):
+            changed = False
+            for f in self.fns:
+                if f.parent is None:
+                    changed |= self._scan_fn(f, {})
+            if not changed:
+                break
+        out = {}
+        for f in self.fns:
+            for (root, kind, text), ids in f.effects.items():
+                if root == f.selfname and f.short == "__init__" and f.parent is None:
+                    continue
+                out[(f.mod, f.qual, root, kind, text)] = len(ids)
+        return sorted((k + (v,)) for k, v in out.items())
+
+    def _scan_fn(self, f, outer_env):
+        self.f = f
+        before = (len(f.mutates), sum(len(v) for v in f.effects.values()))
+        env = dict((k, v) for k, v in outer_env.items() if k not in f.locals and v)
+        for p in f.all_params():
+            env[p] = {p: 1 if p in (f.vararg, f.kwarg) else 0}   # *args / **kwargs: fresh tuple / dict of the caller's values
+        f.env_final = env
+        nested = []
+        self._block(f, f.node.body, env, True, nested)
+        f.env_final = env
+        for g, env_at_def in nested:
+            self._scan_fn(g, _merge_env(env_at_def, env))
+            self.f = f
+            # what the nested function does to the variables of this one happens when it is called; a
+            # nested function is called (or handed out) by the function that defines it
+            for (root, kind, text), ids in g.effects.items():
+                if root.startswith("closure:"):
+                    continue
+                if root in f.all_params() and root not in g.all_params():
+                    f.mutates.add(root)
+        after = (len(f.mutates), sum(len(v) for v in f.effects.values()))
+        return before != after
+
+    def _effect(self, f, roots, kind, node, text_node=None):
+        if isinstance(node, (ast.For, ast.AsyncFor)):
+            text = "for %s in %s" % (ast.unparse(node.target), ast.unparse(node.iter))
+        elif isinstance(node, (ast.With, ast.AsyncWith)):
+            text = "with " + ", ".join(ast.unparse(i) for i in node.items)
+        else:
+            text = ast.unparse(text_node if text_node is not None else node)
+        text = " ".join(text.split())
+        for root in roots:
+            f.effects.setdefault((root, kind, text), set()).add((node.lineno, node.col_offset))
+            if kind == "augassign":
+                # `name op= value` on a bare name: in place only for a mutable object (list += ...); listed,
+                # but not propagated to the callers (nearly always integer / tuple arithmetic)
+                continue
+            base = root
+            if base in f.all_params():
+                f.mutates.add(base)
+            elif f.parent is not None and not base.startswith(("global:", "closure:")):
+                # a parameter of an enclosing function, written through by this nested function
+                f.mutates.add(base)
+
+    # -- taint of an expression ---------------------------------------------------------------------
+    def _free_root(self, f, name):
+        g = f.parent
+        while g is not None:
+            if name in g.locals:
+                return "closure:" + name
+            g = g.parent
+        return "global:" + name
+
+    def taint(self, f, e, env):
+        if e is None:
+            return {}
+        if isinstance(e, ast.Name):
+            if e.id in env:
+                return env[e.id]
+            if e.id in f.locals or e.id in BUILTIN_NAMES or e.id in self.external_names.get(f.mod, ()):
+                return {}
+            return {self._free_root(f, e.id): 0}
+        if isinstance(e, ast.Attribute):
+            return _down(self.taint(f, e.value, env))
+        if isinstance(e, ast.Subscript):
+            t = self.taint(f, e.value, env)
+            if isinstance(e.slice, ast.Slice):
+                return _shallow(t)
+            return _down(t)
+        if isinstance(e, ast.Starred):
+            return self.taint(f, e.value, env)
+        if isinstance(e, ast.IfExp):
+            return _join(self.taint(f, e.body, env), self.taint(f, e.orelse, env))
+        if isinstance(e, ast.BoolOp):
+            return _join(*[self.taint(f, v, env) for v in e.values])
+        if isinstance(e, ast.BinOp):
+            return _shallow(_join(self.taint(f, e.left, env), self.taint(f, e.right, env)))
+        if isinstance(e, (ast.Tuple, ast.List, ast.Set)):
+            return _up(_join(*[self.taint(f, v, env) for v in e.elts])) if e.elts else {}
+        if isinstance(e, ast.Dict):
+            # (keys are hashable objects: what is reachable through a KEY is not tracked)
+            return _up(_join(*[self.taint(f, v, env) for v in e.values])) if e.values else {}
+        if isinstance(e, (ast.ListComp, ast.SetComp, ast.GeneratorExp, ast.DictComp)):
+            env2 = dict(env)
+            for g in e.generators:
+                self._bind(f, g.target, _down(self.taint(f, g.iter, env2)), env2, False)
+            if isinstance(e, ast.DictComp):
+                return _up(self.taint(f, e.value, env2))
+            return _up(self.taint(f, e.elt, env2))
+        if isinstance(e, ast.Call):
+            fn = e.func
+            name = fn.id if isinstance(fn, ast.Name) else fn.attr if isinstance(fn, ast.Attribute) else None
+            is_method = isinstance(fn, ast.Attribute) and not (
+                isinstance(fn.value, ast.Name) and fn.value.id not in f.locals and fn.value.id not in env
+                and fn.value.id in self.module_imports.get(f.mod, ()))
+            args = e.args[1:] if name == "defaultdict" else e.args
+            argt = _join(*[self.taint(f, a, env) for a in args]) if args else {}
+            if is_method and name in ELEMENT_METHODS:
+                return _down(self.taint(f, fn.value, env))
+            if is_method and name in TUPLING:
+                return _up(_shallow(self.taint(f, fn.value, env)))
+            if is_method and name in VIEW_METHODS:
+                return _shallow(self.taint(f, fn.value, env))
+            if name in TUPLING:
+                return _up(_shallow(argt))
+            if name in SHALLOW_FUNCS:
+                return _shallow(argt)
+            if name in ELEMENT_FUNCS:
+                return _down(_join(*[self.taint(f, a, env) for a in e.args[:1]])) if e.args else {}
+            if is_method and name not in FRESH_METHODS:
+                # any other method of a reachable object may hand out a part of it (getters: `self.fields.get_field(..)`)
+                return _down(self.taint(f, fn.value, env))
+            return {}
+        return {}
+
+    def _is_import(self, f, root):
+        return root.startswith("global:") and root[7:] in self.module_imports.get(f.mod, ())
+
+    def _bind(self, f, target, t, env, kill):
+        if isinstance(target, ast.Name):
+            if target.id in f.declared:
+                return
+            if kill:
+                if t:
+                    env[target.id] = dict(t)
+                else:
+                    env.pop(target.id, None)
+                    env[target.id] = {}
+            else:
+                env[target.id] = _join(env.get(target.id, {}), t)
+        elif isinstance(target, (ast.Tuple, ast.List)):
+            for x in target.elts:
+                self._bind(f, x.value if isinstance(x, ast.Starred) else x, _down(t), env, kill)
+
+    def _store(self, f, target, value_t, env, node, kind_prefix=""):
+        """a store through `target` (Subscript / Attribute): effect on what the base is part of; the base, when a
+        local container, now holds the value"""
+        if isinstance(target, (ast.Subscript, ast.Attribute)):
+            t = self.taint(f, target.value, env)
+            roots = sorted(r for r, l in t.items() if l == 0)
+            kind = kind_prefix + ("setitem" if isinstance(target, ast.Subscript) else "setattr")
+            if roots:
+                self._effect(f, roots, kind, node)
+            base, depth = target.value, 1
+            while isinstance(base, (ast.Subscript, ast.Attribute)):
+                base, depth = base.value, depth + 1
+            # a LOCAL container / object now holds the value (parameters and self: not tracked, see CLAIM.note)
+            if isinstance(base, ast.Name) and base.id in f.locals and value_t and base.id not in f.all_params():
+                env[base.id] = _join(env.get(base.id, {}), _up(value_t, depth))
+        elif isinstance(target, (ast.Tuple, ast.List)):
+            for x in target.elts:
+                self._store(f, x, _down(value_t), env, node, kind_prefix)
+
+    # -- statements ---------------------------------------------------------------------------------
+    # `env` is updated in place.  A rebinding (`x = <fresh>`) removes the taint of x for the rest of the
+    # block it stands in; at the end of a conditional block the environments are joined again.
+    def _block(self, f, body, env, top, nested):
+        for s in body:
+            self._stmt(f, s, env, True, nested)
+
+    @staticmethod
+    def _set_env(env, new):
+        env.clear()
+        env.update(new)
+
+    def _stmt(self, f, s, env, top, nested):
+        if isinstance(s, (ast.FunctionDef, ast.AsyncFunctionDef)):
+            g = next((x for x in self.fns if x.node is s), None)
+            if g is not None:
+                nested.append((g, dict(env)))
+            for d in s.decorator_list:
+                self._exprs(f, d, env)
+            return
+        if isinstance(s, ast.ClassDef):
+            return
+        if isinstance(s, ast.Nonlocal):
+            for nm in s.names:
+                self._effect(f, ["closure:" + nm], "nonlocal", s)
+            return
+        if isinstance(s, ast.Global):
+            for nm in s.names:
+                self._effect(f, ["global:" + nm], "global", s)
+            return
+        if isinstance(s, ast.Assign):
+            self._exprs(f, s.value, env)
+            t = self.taint(f, s.value, env)
+            for tg in s.targets:
+                self._exprs_target(f, tg, env)
+                if isinstance(tg, (ast.Tuple, ast.List)) and isinstance(s.value, (ast.Tuple, ast.List)) \
+                        and len(tg.elts) == len(s.value.elts) and not any(isinstance(x, ast.Starred) for x in tg.elts):
+                    ts = [self.taint(f, b_, env) for b_ in s.value.elts]
+                    for a_, t_ in zip(tg.elts, ts):
+                        self._assign1(f, a_, t_, env, top, s)
+                else:
+                    self._assign1(f, tg, t, env, top, s, unpack=isinstance(tg, (ast.Tuple, ast.List)))
+            return
+        if isinstance(s, ast.AnnAssign):
+            if s.value is not None:
+                self._exprs(f, s.value, env)
+                self._assign1(f, s.target, self.taint(f, s.value, env), env, top, s)
+            return
+        if isinstance(s, ast.AugAssign):
+            self._exprs(f, s.value, env)
+            self._exprs_target(f, s.target, env)
+            vt = self.taint(f, s.value, env)
+            if isinstance(s.target, ast.Name):
+                t = self.taint(f, s.target, env)
+                roots = sorted(r for r, l in t.items() if l == 0)
+                if s.target.id in f.declared:
+                    roots = [self._free_root(f, s.target.id)]
+                    self._effect(f, roots, "rebind", s)
+                elif roots:
+                    self._effect(f, roots, "augassign", s)
+                if s.target.id in f.locals and vt:
+                    env[s.target.id] = _join(env.get(s.target.id, {}), _shallow(vt))
+            else:
+                self._store(f, s.target, vt, env, s, "aug-")
+            return
+        if isinstance(s, ast.Delete):
+            for tg in s.targets:
+                self._exprs_target(f, tg, env)
+                if isinstance(tg, (ast.Subscript, ast.Attribute)):
+                    t = self.taint(f, tg.value, env)
+                    roots = sorted(r for r, l in t.items() if l == 0)
+                    if roots:
+                        self._effect(f, roots, "del", s)
+                elif isinstance(tg, ast.Name):
+                    env[tg.id] = {}
+            return
+        if isinstance(s, (ast.For, ast.AsyncFor, ast.While)):
+            loop = dict(env)
+            for _ in range(2):
+                if isinstance(s, ast.While):
+                    self._exprs(f, s.test, loop)
+                else:
+                    self._exprs(f, s.iter, loop)
+                    it = _down(self.taint(f, s.iter, loop))
+                    self._exprs_target(f, s.target, loop)
+                    self._assign1(f, s.target, it, loop, False, s)
+                self._block(f, s.body, loop, True, nested)
+                loop = _merge_env(env, loop)        # the next iteration, or no iteration at all
+            self._block(f, s.orelse, loop, True, nested)
+            self._set_env(env, _merge_env(env, loop))
+            return
+        if isinstance(s, ast.If):
+            self._exprs(f, s.test, env)
+            e1, e2 = dict(env), dict(env)
+            self._block(f, s.body, e1, True, nested)
+            self._block(f, s.orelse, e2, True, nested)
+            self._set_env(env, _merge_env(e1, e2))
+            return
+        if isinstance(s, (ast.With, ast.AsyncWith)):
+            for item in s.items:
+                self._exprs(f, item.context_expr, env)
+                if item.optional_vars is not None:
+                    t = self.taint(f, item.context_expr, env)
+                    self._assign1(f, item.optional_vars, t, env, False, s)
+            self._block(f, s.body, env, True, nested)
+            return
+        if isinstance(s, ast.Try):
+            e1 = dict(env)
+            self._block(f, s.body, e1, True, nested)
+            outs = []
+            e_ok = dict(e1)
+            self._block(f, s.orelse, e_ok, True, nested)
+            outs.append(e_ok)
+            for h in s.handlers:
+                eh = _merge_env(env, e1)        # the exception may come from anywhere in the body
+                self._block(f, h.body, eh, True, nested)
+                outs.append(eh)
+            res = outs[0]
+            for o in outs[1:]:
+                res = _merge_env(res, o)
+            self._set_env(env, res)
+            self._block(f, s.finalbody, env, True, nested)
+            return
+        # Expr, Return, Raise, Assert, ... : only the expressions matter
+        for c in ast.iter_child_nodes(s):
+            if isinstance(c, ast.expr):
+                self._exprs(f, c, env)
+
+    def _assign1(self, f, tg, t, env, top, s, unpack=False):
+        if isinstance(tg, ast.Name):
+            if tg.id in f.declared:
+                self._effect(f, [self._free_root(f, tg.id)], "rebind", s)
+                return
+            self._bind(f, tg, t, env, top)
+        elif isinstance(tg, (ast.Tuple, ast.List)):
+            for x in tg.elts:
+                self._assign1(f, x.value if isinstance(x, ast.Starred) else x, _down(t), env, top, s)
+        else:
+            self._store(f, tg, t, env, s)
+
+    def _exprs_target(self, f, tg, env):
+        """calls inside the index / base expressions of an assignment target"""
+        for c in ast.walk(tg):
+            if isinstance(c, ast.Call):
+                self._call(f, c, env)
+
+    def _exprs(self, f, e, env):
+        """every call in expression `e` (comprehension variables are bound while inside the comprehension)"""
+        if isinstance(e, (ast.ListComp, ast.SetComp, ast.GeneratorExp, ast.DictComp)):
+            env2 = dict(env)
+            for g in e.generators:
+                self._exprs(f, g.iter, env2)
+                self._bind(f, g.target, _down(self.taint(f, g.iter, env2)), env2, False)
+                for c in g.ifs:
+                    self._exprs(f, c, env2)
+            for part in ([e.key, e.value] if isinstance(e, ast.DictComp) else [e.elt]):
+                self._exprs(f, part, env2)
+            return
+        if isinstance(e, ast.Lambda):
+            env2 = dict(env)
+            for a in e.args.posonlyargs + e.args.args + e.args.kwonlyargs:
+                env2[a.arg] = {}
+            self._exprs(f, e.body, env2)
+            return
+        if isinstance(e, ast.Call):
+            self._call(f, e, env)
+        for c in ast.iter_child_nodes(e):
+            if isinstance(c, ast.expr):
+                self._exprs(f, c, env)
+            elif isinstance(c, ast.keyword):
+                self._exprs(f, c.value, env)
+            elif isinstance(c, ast.comprehension):
+                pass
+
+    def _call(self, f, c, env):
+        fn = c.func
+        name = fn.id if isinstance(fn, ast.Name) else fn.attr if isinstance(fn, ast.Attribute) else None
+        if name is None:
+            return
+        # (1) a mutating method of a built-in container called on a reachable object
+        if isinstance(fn, ast.Attribute) and name in MUTATORS_FX:
+            t = self.taint(f, fn.value, env)
+            roots = sorted(r for r, l in t.items() if l == 0 and not self._is_import(f, r))
+            if roots:
+                self._effect(f, roots, "call:" + name, c)
+            if name in STORE_MUTATORS:
+                base, depth = fn.value, 1
+                while isinstance(base, (ast.Subscript, ast.Attribute)):
+                    base, depth = base.value, depth + 1
+                vt = _join(*[self.taint(f, a, env) for a in c.args]) if c.args else {}
+                if name in ("extend", "update", "extendleft"):
+                    vt = _down(vt)
+                if isinstance(base, ast.Name) and base.id in f.locals and vt and base.id not in f.all_params():
+                    env[base.id] = _join(env.get(base.id, {}), _up(vt, depth))
+        # (2) a library function known to write into an argument
+        if name in EXTERNAL_ARG_MUTATORS and not (isinstance(fn, ast.Attribute) and name in MUTATORS_FX):
+            for pos in EXTERNAL_ARG_MUTATORS[name]:
+                if pos < len(c.args):
+                    t = self.taint(f, c.args[pos], env)
+                    roots = sorted(r for r, l in t.items() if l == 0 and not self._is_import(f, r))
+                    if roots:
+                        self._effect(f, roots, "call:" + name, c)
+        # (3) one of rig's own functions / methods that the scan found to write through that position
+        cands = []
+        if isinstance(fn, ast.Name):
+            cands += [(g, 0) for g in self.by_short.get(name, []) if not g.is_method]
+            cands += [(g, 1) for g in self.classes.get(name, [])]
+        elif name in ("__init__", "__new__"):
+            # `super(...).__init__(...)` / `Base.__init__(self, ...)`: the constructors of rig's own base classes
+            anc = self._ancestors(f.cls) if f.cls else set()
+            explicit = isinstance(fn.value, ast.Name) and fn.value.id in self.classes
+            for g in self.by_short.get(name, []):
+                if g.cls in anc or (explicit and g.cls == fn.value.id):
+                    cands.append((g, 0 if explicit else 1))
+        else:
+            for g in self.by_short.get(name, []):
+                cands.append((g, 1 if g.is_method else 0))
+            cands += [(g, 1) for g in self.classes.get(name, [])]
+        builtin_reported = isinstance(fn, ast.Attribute) and name in MUTATORS_FX
+        hit = {}
+        for g, skip in cands:
+            if not g.mutates:
+                continue
+            pos_params = g.params[skip:]
+            for i, a in enumerate(c.args):
+                if isinstance(a, ast.Starred):
+                    ps = pos_params[i:] + ([g.vararg] if g.vararg else [])
+                    ae = a.value
+                else:
+                    ps = [pos_params[i]] if i < len(pos_params) else ([g.vararg] if g.vararg else [])
+                    ae = a
+                for p in ps:
+                    if p in g.mutates:
+                        hit.setdefault(p, []).append((ae, isinstance(a, ast.Starred)))
+            for kw in c.keywords:
+                if kw.arg is None:
+                    ps = [p for p in g.all_params() if p in g.mutates and p != g.selfname]
+                else:
+                    ps = [kw.arg] if kw.arg in g.params + g.kwonly else ([g.kwarg] if g.kwarg else [])
+                for p in ps:
+                    if p in g.mutates:
+                        hit.setdefault(p, []).append((kw.value, kw.arg is None))
+            if skip and g.is_method and isinstance(fn, ast.Attribute) and g.selfname in g.mutates \
+                    and g.short not in ("__init__", "__new__") and not builtin_reported:
+                hit.setdefault("<self>", []).append((fn.value, False))
+        for p, exprs in sorted(hit.items()):
+            roots = set()
+            for ae, splat in exprs:
+                t = self.taint(f, ae, env)
+                if splat:
+                    t = _down(t)
+                bare_self = isinstance(ae, ast.Name) and ae.id == f.selfname
+                for r, l in t.items():
+                    if l != 0 or self._is_import(f, r):
+                        continue
+                    if r == f.selfname and bare_self:
+                        f.mutates.add(r)        # used by the fixpoint, not listed: the write itself is listed
+                        continue                # in the method that makes it
+                    roots.add(r)
+            if roots:
+                self._effect(f, sorted(roots), "pass:%s(%s)" % (name, p), c)
+
+
+def _merge_env(a, b):
+    out = dict(a)
+    for k, v in b.items():
+        out[k] = _join(out.get(k, {}), v)
+    return out
+
+
+def scan_effects(repo):
+    return EffectScan(repo).run()
+
+
+def _lean_str(s):
+    out = []
+    for ch in s:
+        if ch == "\\":
+            out.append("\\\\")
+        elif ch == '"':
+            out.append('\\"')
+        elif ch == "\n":
+            out.append("\\n")
+        elif ch == "\t":
+            out.append("\\t")
+        elif ord(ch) < 32 or ord(ch) > 126:
+            out.append("\\u{%x}" % ord(ch))
+        else:
+            out.append(ch)
+    return '"' + "".join(out) + '"'
+
+
+def effect_tag(e):
+    """a number derived from all fields of the entry; it only makes the comparison of two entries cheap for the
+    kernel (entries are still compared in full) and is line-independent like the rest"""
+    import hashlib
+    return int(hashlib.sha1("\x00".join(list(e[:5]) + [str(e[5])]).encode("utf-8")).hexdigest()[:10], 16)
+
+
+def lean_effect(e):
+    return "(%d, %s, %s, %s, %s, %s, %d)" % ((effect_tag(e),) + tuple(_lean_str(x) for x in e[:5]) + (e[5],))
+
+
+def gen_effects(repo):
+    ents = scan_effects(repo)
+    s = HEADER + "namespace Rig.Gen.Effects\n"
+    s += ("/-- (tag, module, function, root, kind, normalised statement text, number of occurrences in the function).\n"
+          "root = a parameter name, the method's own `self`, `global:<name>` or `closure:<name>`; tag = a number\n"
+          "computed from the other fields (makes unequal entries cheap to tell apart; nothing relies on it). -/\n")
+    s += "def effects : List (Nat × String × String × String × String × String × Nat) := [\n"
+    s += ",\n".join("  " + lean_effect(e) for e in ents)
+    s += "\n]\nend Rig.Gen.Effects\n"
+    return s, 1
+
+
+GENERATORS["Effects"] = gen_effects
+
+if __name__ == "__main__":
+    import sys
+    for e in scan_effects(sys.argv[1] if len(sys.argv) > 1 else "/repo"):
+        print(e)
